@@ -1,14 +1,15 @@
 #!/usr/bin/env python3
 """Run checks against every kept seeded change (scratch copy of /repo with the patch applied,
 VERIF_REPO) and record which checks report it; writes seeded/MATRIX.md and updates meta.json.
-usage: seeded_matrix.py [--all-checks] [ids...]   (default: the change's own property check + a few related ones)"""
-import json, os, re, shutil, subprocess, sys
+usage: seeded_matrix.py [--all-checks] [-j N] [--out DIR] [ids...]   (default: the change's own property check)
+--out DIR: write meta.json / MATRIX.md under DIR/seeded instead of this checkout (when run from a snapshot copy)"""
+import json, os, re, shutil, subprocess, sys, threading
 V = os.path.dirname(os.path.dirname(os.path.abspath(__file__)))
 SCR = '/tmp/vscratch/' + os.environ.get('VSCRATCH', 'repo')
 ALL = ['C%02d' % i for i in range(1, 21)]
 
 
-def run_one(d, checks):
+def run_one(d, checks, SCR=SCR):
     if os.path.isdir(SCR):
         shutil.rmtree(SCR)
     os.makedirs(os.path.dirname(SCR), exist_ok=True)
@@ -34,25 +35,40 @@ def run_one(d, checks):
 def main():
     args = sys.argv[1:]
     allc = '--all-checks' in args
+    jn = 1
+    outd = V
+    if '-j' in args:
+        i = args.index('-j'); jn = int(args[i + 1]); del args[i:i + 2]
+    if '--out' in args:
+        i = args.index('--out'); outd = args[i + 1]; del args[i:i + 2]
     ids = [a for a in args if not a.startswith('--')]
-    sd = os.path.join(V, 'seeded')
+    sd = os.path.join(outd, 'seeded')
     names = sorted(x for x in os.listdir(sd) if os.path.isdir(os.path.join(sd, x)) and re.match(r'C\d\d-\d', x))
     if ids:
         names = [n for n in names if n in ids or n.split('-')[0] in ids]
-    for n in names:
-        d = os.path.join(sd, n)
-        meta = json.load(open(os.path.join(d, 'meta.json')))
-        checks = ALL if allc else [meta['property']]
-        res = run_one(d, checks)
-        det = meta.get('detected_by', {})
-        if not allc:
-            det = {k: v for k, v in det.items() if k != meta['property']}
-        else:
-            det = {}
-        det.update(res)
-        meta['detected_by'] = det
-        json.dump(meta, open(os.path.join(d, 'meta.json'), 'w'), indent=1)
-        print(n, det, flush=True)
+    lock = threading.Lock()
+
+    def work(k):
+        for idx, n in enumerate(names):
+            if idx % jn != k:
+                continue
+            d = os.path.join(sd, n)
+            meta = json.load(open(os.path.join(d, 'meta.json')))
+            checks = ALL if allc else [meta['property']]
+            res = run_one(d, checks, SCR + '-%d' % k)
+            det = meta.get('detected_by', {})
+            if not allc:
+                det = {kk: v for kk, v in det.items() if kk != meta['property']}
+            else:
+                det = {}
+            det.update(res)
+            meta['detected_by'] = det
+            with lock:
+                json.dump(meta, open(os.path.join(d, 'meta.json'), 'w'), indent=1)
+                print(n, det, flush=True)
+    ts = [threading.Thread(target=work, args=(k,)) for k in range(jn)]
+    [t.start() for t in ts]
+    [t.join() for t in ts]
     # matrix
     rows = []
     for n in sorted(x for x in os.listdir(sd) if os.path.isdir(os.path.join(sd, x)) and re.match(r'C\d\d-\d', x)):
